@@ -105,4 +105,43 @@ theorem resolveFilters_nil_out {path vid st fs ev st'}
     (h : resolveFilters path vid [] st = .ok (fs, ev, st')) : fs = [] := by
   simp [resolveFilters] at h; exact h.1
 
+theorem Forall2.unmap_left {α β γ : Type} {r : γ → β → Prop} {g : α → γ} :
+    ∀ {as : List α} {bs : List β}, Forall2 r (as.map g) bs → Forall2 (fun a b => r (g a) b) as bs
+  | [], _, h => by cases h; exact .nil
+  | a :: as, _, h => by
+    cases h with
+    | cons h1 h2 => exact .cons h1 (Forall2.unmap_left h2)
+
+theorem nodup_of_sorted_evVid {l : List Ev} (h : (l.map evVid).Pairwise (· < ·)) : l.Nodup := by
+  apply nodup_of_map_nodup (f := evVid)
+  exact nodup_of_sorted h
+
+theorem countFilters_vars (H : HypEnv) (fds : List FDir)
+    (h : (fds.all fun d => match d with
+      | .countFilter op arg => varOK H ("", op, arg)
+      | _ => true) = true) :
+    (pendingTriples (countFilters fds)).all (varOK H) = true := by
+  induction fds with
+  | nil => rfl
+  | cons d rest ih =>
+    cases d with
+    | countFilter op arg =>
+      simp only [List.all_cons, Bool.and_eq_true] at h
+      simp only [countFilters, pendingTriples, List.map_cons, List.all_cons, leftName, h.1,
+        Bool.true_and]
+      exact ih h.2
+    | countTag t => simpa [countFilters] using ih (by simpa using h)
+    | countOutput o => simpa [countFilters] using ih (by simpa using h)
+
+theorem countFilters_nil_of_none (fds : List FDir)
+    (h : (fds.all fun d => match d with | .countFilter _ _ => false | _ => true) = true) :
+    countFilters fds = [] := by
+  induction fds with
+  | nil => rfl
+  | cons d rest ih =>
+    cases d with
+    | countFilter op arg => simp at h
+    | countTag t => simpa [countFilters] using ih (by simpa using h)
+    | countOutput o => simpa [countFilters] using ih (by simpa using h)
+
 end TF.InterpSpec
